@@ -78,3 +78,32 @@ class ArgRenamer(IdentityMapper):
 
     def map_constant(self, expr, *args):
         return expr
+
+
+from pymbolic.mapper import CachedWalkMapper  # noqa: E402
+from pymbolic.mapper.analysis import NodeCountMapper  # noqa: E402
+
+
+class TallyWalker(CachedWalkMapper):
+    """A cached walker: every handler returns None; counts completed nodes (once per key on one instance)."""
+
+    def __init__(self):
+        super().__init__()
+        self.calls = 0
+
+    def post_visit(self, expr):
+        self.calls += 1
+
+    def get_cache_key(self, expr):
+        return (type(expr), expr)
+
+
+class CountNodes(NodeCountMapper):
+    """The stock node counter, unchanged but for the cache key of an argument-free mapper."""
+
+    def get_cache_key(self, expr):
+        return (type(expr), expr)
+
+    @property
+    def calls(self):
+        return self.count
